@@ -31,6 +31,8 @@ CLAIMED["C14"] = ("fidelity monitor: clone / detach / to / type / double / float
                   "runtime monitoring: reference-model monitor on converted / rebuilt operators plus dtype and storage observers")
 CLAIMED["C08"] = ("hook-trace invariant monitor: linear_cg driven directly on SPD matrices with prescribed spectra, preconditioners, column kinds and limits; the cg.begin / cg.iter / cg.end events (per-iteration iterate, residual, masks, alpha, beta) are checked against A-norm monotonicity and the classical bound down to the solver's accuracy floor, tolerance-on-no-warning, zero columns, frozen columns, scaling, preconditioner independence of the limit, structure / Ritz values / exact quadrature identity of the returned tridiagonals, raising on NaN closures and inconsistent limits, and the logical step bound",
                   "runtime monitoring: invariants over per-iteration hook traces of the real CG loop plus metamorphic pairs")
+CLAIMED["C09"] = ("invariant monitor: lanczos_tridiag driven directly on symmetric PSD matrices (full rank, rank deficient, repeated eigenvalues, identity multiples, mixed batches), every budget 1..n+2, supplied and random start vectors; Q^T Q = I, T symmetric tridiagonal, Q^T A Q = T, A Q - Q T supported in the last column, invariance at full Krylov dimension (dimension from an independent float64 Arnoldi), step bound from the lanczos.* hook events; consumers (lanczos roots, inverse roots, diagonalization) against the orthogonal compression onto the space they span",
+                  "runtime monitoring: algebraic invariants of the returned Lanczos factors with hook-enforced step bound")
 PENDING = {}
 def main():
     hooks_commits = []
